@@ -347,6 +347,11 @@ def check_seq_keymapper(xs, tup, acc, out, seen):
         # the documented signature is (key_mapper, reduce): both given positionally is the same call
         fn = {'sum': rs.math.sum, 'mean': rs.math.mean, 'min': rs.math.min, 'max': rs.math.max, 'variance': rs.math.variance,
               'stddev': rs.math.stddev, 'fvariance': rs.math.formal.variance, 'fstddev': rs.math.formal.stddev}[op]
+        # called without arguments the aggregate streams (one value per item): same as reduce=False
+        e = _subscribe(rx.from_(xs).pipe(fn()), len(xs))
+        acc.evals += 1
+        if repr(a.items) != repr(e.items) or (a.error is None) != (e.error is None):
+            _rep(out, seen, op, 'default-arguments-change-the-result', {'items': xs, 'reduce=False': a.items, 'no arguments': e.items, 'error': repr(e.error)})
         if xs:
             c = run_plain(op, True, xs)
             d = _subscribe(rx.from_(tup).pipe(fn(km, True)), len(tup))
